@@ -73,14 +73,78 @@ def _extras():
 EXTRA = _extras()
 
 
+def _singleton_extras():
+    """Terms that hold one of the library's module-level singleton objects (SqlTypes members): a deep duplicate holds
+    an equal, separately built object instead of the singleton itself."""
+    from pypika_tortoise import Query, Table
+    from pypika_tortoise import functions as FN
+    from pypika_tortoise.enums import SqlTypes
+    from pypika_tortoise.queries import Column
+
+    out = {}
+    for name in sorted(n for n in vars(SqlTypes) if n.isupper()):
+        member = getattr(SqlTypes, name)
+        out["cast_" + name] = lambda member=member: FN.Cast(Table("t").a, member)
+        out["cast_in_query_" + name] = lambda member=member: Query.from_(Table("t")).select(FN.Cast(Table("t").a, member)).where(
+            FN.Cast(Table("t").b, member) == "1")
+        if isinstance(member, str):
+            out["column_" + name] = lambda member=member: Column("c", member)
+        if callable(member):
+            out["cast_len_" + name] = lambda member=member: FN.Cast(Table("t").a, member(24))
+    return out
+
+
+EXTRA.update(_singleton_extras())
+
+
+def _wrap_seeds():
+    """every term kind of the zoo inside a statement (select list, WHERE, ORDER BY): a shallow copy of the statement
+    shares the term objects, so a builder call on the copy must not write through them."""
+    from pypika_tortoise import Query, Table
+    from pypika_tortoise.terms import Criterion
+
+    out = {}
+    for name, (n, b) in c01._ZOO_BY_NAME.items():
+        def seed(b=b, n=n):
+            t = Table("t")
+            term = b([t.field("c%d" % i) for i in range(max(n, 1))])
+            q = Query.from_(t).select(term)
+            try:
+                q = q.where(term if isinstance(term, Criterion) else term == 1)
+            except Exception:
+                pass
+            return q
+
+        try:
+            seed().get_sql()
+        except Exception:
+            continue
+        out[name] = seed
+    return out
+
+
+WRAP = _wrap_seeds()
+WRAP_OPS = {
+    "replace_table:t": lambda q: q.replace_table(c01.A(_T("t")), c01.A(_T("tt"))),
+    "replace_table:self": lambda q: q.replace_table(c01.A(_T("t")), c01.A(_T("t", alias="x"))),
+}
+
+
+def _T(*a, **k):
+    from pypika_tortoise import Table
+    return Table(*a, **k)
+
+
 def build(key):
     if key[0] == "extra":
         return EXTRA[key[1]]()
+    if key[0] == "wrap":
+        return WRAP[key[1]]()
     return c02.build(key)
 
 
 def chunks(tier, seed):
-    keys = c02.corpus_keys(tier) + [["extra", k, None] for k in EXTRA]
+    keys = c02.corpus_keys(tier) + [["extra", k, None] for k in EXTRA] + [["wrap", k, None] for k in WRAP]
     out = []
     B = 60
     for i in range(0, len(keys), B):
@@ -193,7 +257,7 @@ def run_case(case):
     if o is None:
         return res
     tname = type(o).__qualname__
-    fam_ops = c02._fam(key[0])[1] if key[0] != "extra" else {}
+    fam_ops = WRAP_OPS if key[0] == "wrap" else (c02._fam(key[0])[1] if key[0] != "extra" else {})
     res.nontrivial = 1
     o0 = obs(o)
     res.states.append(h64(repr(key)))
